@@ -92,16 +92,53 @@ def _not_in_literals(atom, pol, name) -> Optional[Set[str]]:
 
 
 def error_sites(ctx: Context, v: FuncInfo):
+    """(node, call/raise, path facts) with plain value locals (n_dim = self.n_dim) inlined in the facts."""
+    from ..dataflow import Resolver as _Res
+    from ..util import split_cond
+
     flow = flow_of(v.node)
     cfg = flow.cfg
     out = []
+
+    def facts_at(nd):
+        fs = []
+        for (t, pol) in cfg.conditions_on_all_paths(nd.id):
+            tn = flow.node_containing(t)
+            rt = _inline_attr_aliases(v, flow, t, tn)
+            fs += split_cond(rt, pol)
+        return fs
+
     for nd in cfg.stmt_nodes():
         for c in calls_in_node(nd):
             if isinstance(c.func, ast.Attribute) and c.func.attr == "append" and isinstance(c.func.value, ast.Name):
-                out.append((nd, c, conds_holding_at(cfg, nd)))
+                out.append((nd, c, facts_at(nd)))
         if nd.kind == "stmt" and isinstance(nd.stmt, ast.Raise):
-            out.append((nd, nd.stmt, conds_holding_at(cfg, nd)))
+            out.append((nd, nd.stmt, facts_at(nd)))
     return out
+
+
+def _inline_attr_aliases(v: FuncInfo, flow, t: ast.expr, at):
+    """Replace local names that are uniquely defined as `self.<field>` by that attribute."""
+    import copy
+
+    if at is None:
+        return t
+
+    class T(ast.NodeTransformer):
+        def visit_Name(self, n):
+            if isinstance(n.ctx, ast.Load):
+                ds = flow.reaching(at, n.id)
+                if len(ds) == 1 and ds[0].kind == "assign" and not ds[0].path and isinstance(ds[0].value, ast.Attribute) and isinstance(ds[0].value.value, ast.Name) and ds[0].value.value.id == "self":
+                    return copy.deepcopy(ds[0].value)
+            return n
+
+        def visit_GeneratorExp(self, n):
+            return n
+
+        def visit_ListComp(self, n):
+            return n
+
+    return T().visit(copy.deepcopy(t))
 
 
 def rule_a(ctx: Context, R: Reporter, cc: ClassInfo, v: FuncInfo):
@@ -261,9 +298,12 @@ def rule_b(ctx: Context, R: Reporter, cc: ClassInfo, v: FuncInfo):
             continue
         flow = flow_of(fi.node)
         for nd in flow.cfg.stmt_nodes():
-            if nd.kind != "test":
-                continue
-            for a in ast.walk(nd.ast):
+            roots = []
+            if nd.kind == "test":
+                roots = [nd.ast]
+            elif nd.ast is not None and nd.kind == "stmt" and not isinstance(nd.stmt, (ast.FunctionDef, ast.ClassDef)):
+                roots = [x.test for x in ast.walk(nd.ast) if isinstance(x, ast.IfExp)]
+            for a in [y for r0 in roots for y in ast.walk(r0)]:
                 if isinstance(a, ast.Compare) and len(a.ops) == 1 and isinstance(a.ops[0], (ast.Eq, ast.NotEq)):
                     lit = None
                     other = None
@@ -305,6 +345,9 @@ def rule_b(ctx: Context, R: Reporter, cc: ClassInfo, v: FuncInfo):
             has_else = False
             for s in lst:
                 ifn = s[2].stmt
+                if not isinstance(ifn, ast.If):
+                    has_else = True  # conditional expression: the other branch is the else
+                    continue
                 node = ifn
                 while isinstance(node, ast.If):
                     if not node.orelse:
